@@ -54,6 +54,9 @@ MUTATIONS = [
     ('convert-state-options-memoised-by-abbreviation', 'C08', 'emmet/markup/__init__.py',
      "            'jsx': bool(config.options.get('jsx.enabled')),\n",
      "            'jsx': _JSX.setdefault(abbr, bool(config.options.get('jsx.enabled'))),\n"),
+    ('last-parsed-tree-kept-for-debugging', 'C08', 'emmet/markup/__init__.py',
+     "    finally:\n        config.user_config['text'] = text\n    return abbr",
+     "    finally:\n        config.user_config['text'] = text\n    _LAST[:] = [abbr]\n    return abbr"),
     ('offset-not-advanced-in-push-field', 'C13', 'emmet/output_stream.py',
      "        self._push(field(index, placeholder, offset=self.offset, line=self.line, column=self.column))",
      "        val = field(index, placeholder, offset=self.offset, line=self.line, column=self.column)\n        self._value.append(val)\n        self.column += len(val)"),
@@ -137,6 +140,7 @@ EQUIVALENT = [
 ]
 
 PREAMBLE = {
+    'last-parsed-tree-kept-for-debugging': ('emmet/markup/__init__.py', "\n_LAST = []\n"),
     'snippet-definition-memoised-by-name': ('emmet/markup/snippets.py', "\n_SEEN = {}\n"),
     'convert-state-options-memoised-by-abbreviation': ('emmet/markup/__init__.py', "\n_JSX = {}\n"),
     'bem-lookup-at-module-level': ('emmet/markup/__init__.py', "\n_BEM_LOOKUP = {}\n"),
